@@ -376,7 +376,50 @@ def Q(text):
     return lift(Fraction(text))
 
 
-def make_loader(stubs=None, native_extra=()):
+class NumpyShim:
+    """numpy with selected functions replaced by contract stubs (e.g. np.indices -> generic index rows)."""
+
+    def __init__(self, overrides):
+        self._ov = dict(overrides)
+
+    def __getattr__(self, name):
+        if name in self._ov:
+            return self._ov[name]
+        return getattr(np, name)
+
+
+def make_loader(stubs=None, native_extra=(), np_overrides=None):
     from ..loader import Loader
 
-    return Loader(Backend(), MathShim(), Q, stubs=stubs, native_extra=native_extra)
+    return Loader(Backend(), MathShim(), Q, stubs=stubs, native_extra=native_extra,
+                  np_shim=NumpyShim(np_overrides) if np_overrides else None)
+
+
+def poly_to_z3(p, varmap):
+    """Polynomial over plain variables -> z3 real term. varmap: generator id -> z3 expr (created on demand)."""
+    import z3
+
+    from .core import L as _L
+
+    G = core.ctx().gens
+    tot = z3.RealVal(0)
+    for m, c in p.t.items():
+        term = z3.RealVal(c.numerator) / z3.RealVal(c.denominator)
+        for g, e in m:
+            gg = G[g]
+            if gg.kind != "var":
+                raise core.OutsideSubset(f"poly_to_z3: generator {gg!r}")
+            if e % gg.L:
+                raise core.OutsideSubset("poly_to_z3: fractional power")
+            k = e // gg.L
+            x = varmap.get(g)
+            if x is None:
+                x = varmap[g] = z3.Real(gg.name)
+            if k > 0:
+                for _ in range(k):
+                    term = term * x
+            else:
+                for _ in range(-k):
+                    term = term / x
+        tot = tot + term
+    return tot
